@@ -198,20 +198,20 @@ class Run:
         if not la or not la[-1].startswith('GATE-DONE') or not lb or not lb[-1].startswith('GATE-DONE'):
             self.gate_stats[self.qname(h, cfg)] = dict(error='gate driver did not finish', tail_real=la[-2:], tail_tran=lb[-2:])
             return
-        for x, y in zip(la[:-1], lb[:-1]):
-            if x.endswith('skip') and y.endswith('skip'): continue
+        da = dict(x.split(' ', 1) for x in la[:-1]); db = dict(y.split(' ', 1) for y in lb[:-1])
+        for k in sorted(set(da) | set(db), key=int):
             cmp_n += 1
-            fx = x.split(); fy = y.split()
-            if x.endswith('skip') != y.endswith('skip'):
-                mism += 1; first = first or (x, y); continue
+            x = da.get(k); y = db.get(k)
+            if x is None or y is None:
+                mism += 1; first = first or (k, x, y); continue
             accepted += 1
-            cx = 'c=1' in fx; cy = 'c=1' in fy
+            cx = 'c=1' in x.split(); cy = 'c=1' in y.split()
             if cx or cy:
                 crashes += 1
-                if cx != cy: mism += 1; first = first or (x, y)
+                if cx != cy: mism += 1; first = first or (k, x, y)
                 continue
-            if fx[1:] != fy[1:]:
-                mism += 1; first = first or (x, y)
+            if x != y:
+                mism += 1; first = first or (k, x, y)
         self.gate_stats[self.qname(h, cfg)] = dict(samples=n, compared=cmp_n, accepted=accepted, mismatches=mism, both_or_either_crashed=crashes, first_mismatch=first)
 
     # ------------------------------------------------------------------ cbmc
@@ -431,7 +431,7 @@ class Run:
                     except Inconclusive as e:
                         self.problems.append(str(e)); log('[build] FAILED %s: %s' % (futs[f], str(e)[:2000]))
             work = [(h, c) for h, c in work if all(k in self.tus for k in h['kernels'])]
-            gate_n = int(os.environ.get('NMV_GATE_N', '400' if self.tier == 'quick' else '4000'))
+            gate_n = int(os.environ.get('NMV_GATE_N', '20000' if self.tier == 'quick' else '200000'))
             with ThreadPoolExecutor(max_workers=self.jobs) as ex:
                 futs = []
                 gated = set()
